@@ -70,9 +70,28 @@ def all_methods(prog: Program, ci: ClassInfo) -> dict:
     return out
 
 
+def _mutators(prog: Program) -> frozenset:
+    """the library's in-place container operations, plus the methods of the repository's own container subclasses
+    (`class _TokenWindow(deque)`) that apply one of them to `self`: calling those on a field mutates the field"""
+    LIB = MUTATORS
+
+    extra: set[str] = set()
+    for c in prog.classes.values():
+        if not any(ast.unparse(b).split("[")[0].split(".")[-1] in ("deque", "list", "dict", "set", "defaultdict", "OrderedDict", "Counter") for b in c.node.bases):
+            continue
+        for mname, m in c.methods.items():
+            sn = self_name(m)
+            if sn is None or mname.startswith("__"):
+                continue
+            if any(isinstance(n, ast.Call) and isinstance(n.func, ast.Attribute) and n.func.attr in LIB and isinstance(n.func.value, ast.Name) and n.func.value.id == sn for n in prog._own_nodes(m.node)):
+                extra.add(mname)
+    return frozenset(LIB) | frozenset(extra)
+
+
 def guarded_fields(prog: Program, ci: ClassInfo, lock: str) -> set[str]:
     """fields written (assigned or mutated in place, directly or through a local alias) outside __init__"""
     out: set[str] = set()
+    MUTATORS = _mutators(prog)
     for name, m in all_methods(prog, ci).items():
         if name == "__init__":
             continue
